@@ -68,6 +68,7 @@ Fixpoint ty_sx (t : ty) : sx :=
   | Bare o => SL [SZ 10; SZ (origin_code o)]
   | Ellip => SL [SZ 11]
   | FwdLocal n => SL [SZ 12; SZ (Zpos n)]
+  | UnionPair pep a b => SL [SZ 13; SB pep; ty_sx a; ty_sx b]
   end.
 Definition kinds_sx (k : kinds) : sx :=
   SL [SB (k_builtin k); SB (k_optional k); SB (k_enum k); SB (k_container k); SB (k_one_to_one k);
